@@ -30,7 +30,7 @@ ASSUMPTIONS = [
     "pressure: collinearity with the geometric face normal and magnitude p*A are judged; the sign follows the face orientation (C08 finding)",
 ]
 TIMEOUT_CASE = 300
-MIN_EVALS = {"resultant-force": 60, "resultant-moment": 60, "pressure-resultant": 8, "point-load-total": 6, "stray-nodes-ignored": 10}
+MIN_EVALS = {"resultant-force": 40, "resultant-moment": 35, "pressure-resultant": 8, "point-load-total": 6, "stray-nodes-ignored": 10}
 REQUIRED_COVERAGE = ["Bc_Integration_Dim", "Get_Elements_Nodes", "Bc_pointLoad", "Bc_pressureload"]
 
 SIMS = ["elastic", "thermal", "phasefield", "hyperelastic", "inelastic", "weakforms"]
